@@ -150,11 +150,15 @@ class Compiled:
         return self.kind + ":" + self.out.strip().splitlines()[-1][:80] if self.out.strip() else self.kind
 
 
-def compile_src(src, optimize=False, wasm=False):
+def compile_src(src, optimize=False, wasm=False, options_style="full"):
+    """options_style: 'full' passes every option explicitly; 'minimal' passes only the options that are switched on
+    (and no options argument at all when none is) - the two spellings mean the same"""
     opts = {"optimize": optimize, "wasm": wasm}
+    if options_style == "minimal":
+        opts = {k: v for k, v in opts.items() if v}
     with quiet() as buf:
         try:
-            res = Compiler().Compile(src, opts)
+            res = Compiler().Compile(src, opts) if (opts or options_style == "full") else Compiler().Compile(src)
         except SystemExit:
             return Compiled(False, kind="exit", stage="front", out=buf.getvalue())
         except RecursionError as e:
